@@ -514,12 +514,14 @@ theorem frames_flatten_isFraming : ∀ (done : List Bytes), (∀ f ∈ done, IsF
     · exact m l hl
 
 /-- **lines_whole** — any number of senders on one connection, each doing `send_lock.acquire();
-sendall(frame); release()` with `sendall` writing the frame in pieces of any size, in any
-interleaving: sender 0 is the handler thread answering an arbitrary byte stream, the others send
-well-formed events.  Whenever nobody is inside `sendall`, what the peer has received is a
-concatenation of whole frames — cut at its newlines it is exactly the frames completed so far, and each
-of them is one of the senders' frames; while a sender is inside `sendall`, it is that followed by a
-part of one frame.  No line is split by another. -/
+if self.running: sendall(frame); release()` with `sendall` writing the frame in pieces of any size, in any
+interleaving, and any `sendall` possibly raising after any number of its pieces (after which `self.running`
+is false and every sender drops its frames): sender 0 is the handler thread answering an arbitrary byte
+stream, the others send well-formed events.  Whenever nobody is inside `sendall`, what the peer has
+received, cut at its newlines, is exactly the frames completed so far — each of them one of the senders'
+frames — followed by a rest without newline, which is empty as long as no send has failed (afterwards it is
+the written part of the torn frame, and nothing is ever appended to it); while a sender is inside `sendall`, it
+is the completed frames followed by a part of one frame.  No line is split by another. -/
 theorem lines_whole (T : Tables) (L : Lib J) (d : Disp σ J) (laws : LibLaws L) (tf : TableNoEol T)
     (hd : DispFits T L d) (st : σ) (chunks : List Bytes)
     (others : Nat → List (Triple J)) (hothers : ∀ i, ∀ m ∈ others i, WFTriple L m)
@@ -528,7 +530,8 @@ theorem lines_whole (T : Tables) (L : Lib J) (d : Disp σ J) (laws : LibLaws L) 
                                               else (others i).map (encodeFrame L))) s) :
     (∀ f ∈ s.done, IsFrame f) ∧
     match s.lock with
-    | none => ∃ bodies, s.done = bodies.map (· ++ [EOL]) ∧ IsFraming s.out bodies []
+    | none => (∃ bodies, s.done = bodies.map (· ++ [EOL]) ∧ IsFraming s.out bodies s.tail)
+        ∧ (s.running = true → s.tail = [])
     | some i => ∃ w r, s.cur i = some (w, r) ∧ IsFrame (w ++ r) ∧ s.out = s.done.flatten ++ w := by
   have hq : ∀ i, ∀ f ∈ (fun i => if i = 0 then wire L (serve T L d [] st chunks).outs
       else (others i).map (encodeFrame L)) i, IsFrame f := by
@@ -550,52 +553,73 @@ theorem lines_whole (T : Tables) (L : Lib J) (d : Disp σ J) (laws : LibLaws L) 
   cases hlock : s.lock with
   | none =>
     rw [hlock] at hl
+    obtain ⟨_, hout, hrun, hfail⟩ := hl
     obtain ⟨bodies, hb, hfr⟩ := frames_flatten_isFraming s.done hdone
-    exact ⟨bodies, hb, by rw [hl.2]; exact hfr⟩
+    refine ⟨⟨bodies, hb, by rw [hout, hfr.1]; simp, hfr.2.1, ?_⟩, hrun⟩
+    cases hr : s.running with
+    | true => rw [hrun hr]; simp
+    | false =>
+      obtain ⟨r, hr0, body, hbody, hno⟩ := hfail hr
+      exact not_mem_of_proper_prefix hbody hr0 hno
   | some i =>
     rw [hlock] at hl
-    obtain ⟨_, w, r, hc, hp, hout⟩ := hl
+    obtain ⟨_, _, _, w, r, hc, hp, hout⟩ := hl
     exact ⟨w, r, hc, hp, hout⟩
 
 /-- **senders_keep_order** — in every reachable state of any number of senders (any queues, any
-interleaving of acquire / partial writes / release): the frames completed so far are `doneBy` without the
-sender numbers, and for every sender what it has completely sent (in the order the peer got it), the
-frame it is writing and what it still has to send are, in this order, exactly the frames it set out
-to send — nothing lost, duplicated or overtaken -/
+interleaving of acquire / partial writes / release / a `sendall` that raises / sends dropped after that): the
+frames completed so far are `doneBy` without the sender numbers, and for every sender what it has completely
+sent (in the order the peer got it), the frame it is writing, the frames that were not delivered and what
+it still has to send are, in this order, exactly the frames it set out to send — nothing duplicated or
+overtaken, and nothing lost as long as no send has failed -/
 theorem senders_keep_order (queue : Nat → List Bytes) (s : SockState) (hreach : SendReach (sockInit queue) s) :
-    s.done = s.doneBy.map Prod.snd ∧ ∀ i, sentBy s i ++ inFlight s i ++ s.queue i = queue i :=
+    s.done = s.doneBy.map Prod.snd ∧ (∀ i, sentBy s i ++ inFlight s i ++ s.lost i ++ s.queue i = queue i)
+    ∧ (s.running = true → ∀ i, s.lost i = []) :=
   orderInv_reach (fun _ => True) queue (fun _ _ _ => trivial) hreach
 
 /-- **replies_in_order_among_events** — the handler thread (sender 0) answering any byte stream in any
 segmentation, any other senders on the same connection: the frames of the handler thread reach the
 peer in the order of `serve` (so the replies are in request order, `one_reply_per_line`), however the
-events of the other threads are interleaved; once the handler thread has nothing left to send, the peer
-has got all of them -/
+events of the other threads are interleaved and also when a send of any thread fails in the middle: what the
+peer has got of them is always a prefix; as long as no send has failed, once the handler thread has
+nothing left to send the peer has got all of them -/
 theorem replies_in_order_among_events (T : Tables) (L : Lib J) (d : Disp σ J) (st : σ) (chunks : List Bytes)
     (others : Nat → List (Triple J)) (s : SockState)
     (hreach : SendReach (sockInit (fun i => if i = 0 then wire L (serve T L d [] st chunks).outs
                                               else (others i).map (encodeFrame L))) s) :
-    sentBy s 0 ++ inFlight s 0 ++ s.queue 0 = wire L (serve T L d [] st chunks).outs
-    ∧ (s.queue 0 = [] → s.cur 0 = none → sentBy s 0 = wire L (serve T L d [] st chunks).outs) := by
-  have h := (senders_keep_order _ s hreach).2 0
+    sentBy s 0 ++ inFlight s 0 ++ s.lost 0 ++ s.queue 0 = wire L (serve T L d [] st chunks).outs
+    ∧ sentBy s 0 <+: wire L (serve T L d [] st chunks).outs
+    ∧ (s.running = true → s.queue 0 = [] → s.cur 0 = none → sentBy s 0 = wire L (serve T L d [] st chunks).outs) := by
+  obtain ⟨_, hall, hlost⟩ := senders_keep_order _ s hreach
+  have h := hall 0
   simp only [↓reduceIte] at h
-  refine ⟨h, fun hq hc => ?_⟩
-  rw [← h, hq]
+  refine ⟨h, ⟨inFlight s 0 ++ s.lost 0 ++ s.queue 0, by rw [← h]; simp [List.append_assoc]⟩, fun hr hq hc => ?_⟩
+  rw [← h, hq, hlost hr 0]
   simp [inFlight, hc]
 
 /-- non-vacuity of the step relation: two senders, the second acquires while the first has not
 started; a state with the lock held and half a frame written is reachable -/
 example : ∃ s, SendReach (sockInit (fun i => if i = 0 then [[97, 10]] else if i = 1 then [[98, 99, 10]] else [])) s
     ∧ s.lock = some 1 ∧ s.out = [98] := by
-  refine ⟨_, .step _ _ (.step _ _ .start (.acquire _ 1 [98, 99, 10] [] rfl rfl)) (.write _ 1 [] [98, 99, 10] 1 (by simp [upd])), rfl, rfl⟩
+  refine ⟨_, .step _ _ (.step _ _ .start (.acquire _ 1 [98, 99, 10] [] rfl rfl rfl)) (.write _ 1 [] [98, 99, 10] 1 (by simp [upd])), rfl, rfl⟩
 
 /-- … and a state in which the second sender's frame has overtaken the first sender's: `doneBy` records who sent what -/
 example : ∃ s, SendReach (sockInit (fun i => if i = 0 then [[97, 10]] else if i = 1 then [[98, 10]] else [])) s
     ∧ s.doneBy = [(1, [98, 10]), (0, [97, 10])] ∧ s.out = [98, 10, 97, 10] ∧ sentBy s 0 = [[97, 10]] := by
   refine ⟨_, .step _ _ (.step _ _ (.step _ _ (.step _ _ (.step _ _ (.step _ _ .start
-    (.acquire _ 1 [98, 10] [] rfl rfl)) (.write _ 1 [] [98, 10] 2 (by simp [upd]))) (.release _ 1 [98, 10] (by simp [upd])))
-    (.acquire _ 0 [97, 10] [] rfl rfl)) (.write _ 0 [] [97, 10] 2 (by simp [upd]))) (.release _ 0 [97, 10] (by simp [upd])),
+    (.acquire _ 1 [98, 10] [] rfl rfl rfl)) (.write _ 1 [] [98, 10] 2 (by simp [upd]))) (.release _ 1 [98, 10] (by simp [upd])))
+    (.acquire _ 0 [97, 10] [] rfl rfl rfl)) (.write _ 0 [] [97, 10] 2 (by simp [upd]))) (.release _ 0 [97, 10] (by simp [upd])),
     by simp [sockInit], by simp [sockInit], by simp [sentBy, sockInit]⟩
+
+/-- … and a state after a failed send: sender 1 has written `b` of its frame `bc\n` when `sendall` raises; sender 0 then
+drops its frame.  The peer has the rest `b` and will never get anything else; both frames are recorded as lost. -/
+example : ∃ s, SendReach (sockInit (fun i => if i = 0 then [[97, 10]] else if i = 1 then [[98, 99, 10]] else [])) s
+    ∧ s.running = false ∧ s.lock = none ∧ s.out = [98] ∧ s.tail = [98] ∧ s.done = [] ∧ s.lost 0 = [[97, 10]]
+    ∧ s.lost 1 = [[98, 99, 10]] ∧ s.queue 0 = [] := by
+  refine ⟨_, .step _ _ (.step _ _ (.step _ _ (.step _ _ .start
+    (.acquire _ 1 [98, 99, 10] [] rfl rfl rfl)) (.write _ 1 [] [98, 99, 10] 1 (by simp [upd])))
+    (.fail _ 1 [98] [99, 10] (by simp [upd]) (by simp))) (.skip _ 0 [97, 10] [] rfl rfl rfl),
+    rfl, rfl, by simp [sockInit], rfl, by simp [sockInit], by simp [sockInit, upd], by simp [sockInit, upd], by simp [upd]⟩
 
 end whole
 
